@@ -18,6 +18,7 @@
     agreement of Pattern.instantiate with the checker's instantiate) hold. *)
 From Coq Require Import NArith List Bool.
 From Pi2 Require Import ML.Syntax ML.Subst ML.Machine Interp.Calls Interp.Facts Interp.RoundTrip Interp.Sim.
+From Pi2 Require Import Interp.SerialLib Gen.PySerial Interp.GenPySerialAgree.
 Import ListNotations.
 Open Scope N_scope.
 
@@ -190,3 +191,29 @@ Theorem C04_refuted_claims_argument :
   exists tr, stateful_run (fresh_tracker Gamma [EVar 0]) [CIntoClaim; CIntoProof] = Some tr /\
              t_claims tr = [EVar 0] /\ verify guards_sound [] [] [] = Some st0 /\ claims st0 = [].
 Proof. eexists. split; [vm_compute; reflexivity|]. repeat split. Qed.
+
+(* ---------------------------------------------------------------------------------------------- *)
+(** The simulation stated of the bytes written by the methods REGENERATED from serializing_interpreter.py
+    (Gen/PySerial.v; opcodes from instruction.py).  The tracker (super() calls) stays the hand-written
+    [stateful_step], tied differentially. *)
+Theorem C04_source_sim : forall f tbl tr st c tr' tbl' bs,
+  R f tr st -> stateful_step tr c = Some tr' -> gen_emit_tbl tbl tr c = Some (tbl', bs) ->
+  is_switch c = false -> wf_call guards_sound tr c = true -> agrees f tbl' ->
+  exists st', exec guards_sound (t_phase tr) bs st = Some st' /\ R f tr' st'.
+Proof. intros f tbl tr st c tr' tbl' bs HR Hs He. rewrite gen_emit_tbl_agrees in He. exact (sim f tbl tr st c tr' tbl' bs HR Hs He). Qed.
+Print Assumptions C04_source_sim.
+
+Theorem C04_source_simulation_phase : forall f cs tbl tr st tblF trF bs,
+  R f tr st -> gen_ser_run tbl tr cs = Some (tblF, trF, bs) -> wf_run tr cs -> agrees f tblF ->
+  exists st', exec guards_sound (t_phase tr) bs st = Some st' /\ R f trF st' /\ t_phase trF = t_phase tr.
+Proof. intros f cs tbl tr st tblF trF bs HR H. rewrite gen_ser_run_agrees in H. exact (sim_run f cs tbl tr st tblF trF bs HR H). Qed.
+Print Assumptions C04_source_simulation_phase.
+
+Theorem C04_source_load_index_correct : forall f tbl tr st t tr' tbl' bs,
+  R f tr st -> stateful_step tr (CLoad t) = Some tr' -> gen_emit_tbl tbl tr (CLoad t) = Some (tbl', bs) ->
+  exists i, bs = [29; N.of_nat i] /\
+    nth_error (t_memory tr) i = Some t /\
+    nth_error (memory st) i = Some (rn_term f t) /\
+    (forall j u, (j < i)%nat -> nth_error (t_memory tr) j = Some u -> u <> t).
+Proof. intros f tbl tr st t tr' tbl' bs HR Hs He. rewrite gen_emit_tbl_agrees in He. exact (load_index_correct f tbl tr st t tr' tbl' bs HR Hs He). Qed.
+Print Assumptions C04_source_load_index_correct.
